@@ -708,6 +708,11 @@ class Evaluator:
             return v
         fr = self.frames[-1]
         mi = fr.func.module
+        if name in _local_names(fr.func):
+            # a local of this function that has not been assigned on this path
+            v = atom(("undef", name))
+            self.emit("undefread", node, name=name, value=v)
+            return v
         if name in mi.imports:
             return atom(("global", mi.imports[name]))
         if name in mi.classes:
@@ -1282,6 +1287,30 @@ class Evaluator:
             else:
                 self.emit("localmut", node, name=None, how="method:" + name, path=tuple(path), value=atom(("tuple", tuple(args))), aug=None, old=recv, kwargs=_kw(kwargs))
         return res
+
+
+_LOCALS = {}
+
+
+def _local_names(fi):
+    """Names bound by assignment in the function's own scope."""
+    r = _LOCALS.get(fi.node)
+    if r is None:
+        r = set()
+        stack = list(fi.node.body)
+        while stack:
+            n = stack.pop()
+            if isinstance(n, (ast.FunctionDef, ast.ClassDef, ast.Lambda)):
+                if isinstance(n, ast.FunctionDef):
+                    r.add(n.name)
+                continue
+            if isinstance(n, ast.Name) and isinstance(n.ctx, ast.Store):
+                r.add(n.id)
+            if isinstance(n, (ast.ListComp, ast.SetComp, ast.DictComp, ast.GeneratorExp)):
+                continue
+            stack.extend(ast.iter_child_nodes(n))
+        _LOCALS[fi.node] = r
+    return r
 
 
 def _kw(kwargs):
